@@ -208,7 +208,7 @@ def afterReset (s : State) (from_ : Nat) : State :=
 
 /-- `Server.Clear()`; phase idle; `Reset()` returns; `s.Release()`; then whoever asked continues -/
 def resetTail (s : State) (from_ : Nat) : State :=
-  let s := release { s with doneChan := none, cached := none, rapidPhaseInvoking := false }
+  let s := release { s with doneChan := none, cached := none, rapidPhaseInvoking := false, initChan := s.initChan.drain }
   match from_ with
   | 0 => s.emit s!"reset done err={s.resetErr}"
   | 1 => { s with flights := s.flights.map fun f => if f.g0 == .timeoutResetWait then { f with g0 := .timeoutAwaitRelease } else f }
